@@ -94,13 +94,29 @@ Fixpoint app_obj (o : N) (f : node -> res node) (d : node) : res node :=
   | NSet _ _ => ROk d
   end.
 
-(* ================= part 1: _delete_nodes (processor.py:740-812) ========== *)
+(* first container object with identity o *)
+Fixpoint find_obj (o : N) (d : node) : option node :=
+  if is_obj o d then Some d else
+  match d with
+  | NMap _ kvs => fold_right (fun kv acc => match find_obj o (snd kv) with Some x => Some x | None => acc end) None kvs
+  | NSeq _ els => fold_right (fun x acc => match find_obj o x with Some r => Some r | None => acc end) None els
+  | _ => None
+  end.
+
+(* ================= part 1: _delete_nodes (processor.py:745-862) ==========
+   after fixes 17f9ea8 and 1c243db: the gathered NodeCoords are flattened (_leaf_node_coords),
+   a coordinate whose parent is no container (the document root) makes the
+   whole call refuse before anything is deleted,
+   every place (parent object, parentref) is kept once with a negative list
+   index resolved against the intact list, and the places are processed in
+   reverse gather order except that list elements go first, highest position
+   first (a stable sort on the position, -1 for everything that is not an
+   int-indexed list element). *)
 
 (* which child does `parentref` name in this (current) parent object, as the
    three container branches test it:
      dict:  `parentref in parent`            -> position of the key
-     list:  `len(parent) > parentref`, then `del parent[parentref]`
-            (a negative index counts from the end; one beyond -len raises)
+     list:  `0 <= parentref < len(parent)`, then `del parent[parentref]`
      set:   `parent.discard(parentref)` = `del odict[value]` (KeyError if absent) *)
 Definition del_index (r : pyval) (n : node) : res (option nat) :=
   match n with
@@ -108,14 +124,9 @@ Definition del_index (r : pyval) (n : node) : res (option nat) :=
   | NMap _ kvs => ROk (find_idx (key_is r) kvs)
   | NSeq _ els =>
       match as_index r with
-      | None => RErr (PyCrash TypeError)
+      | None => RErr (PyCrash TypeError)            (* `0 <= 'x'` *)
       | Some z =>
-          let len := Z.of_nat (List.length els) in
-          if (z <? len)%Z then
-            if (0 <=? z)%Z then ROk (Some (Z.to_nat z))
-            else if (0 <=? z + len)%Z then ROk (Some (Z.to_nat (z + len)))
-            else RErr (PyCrash IndexError)
-          else ROk None
+          if ((0 <=? z) && (z <? Z.of_nat (List.length els)))%Z then ROk (Some (Z.to_nat z)) else ROk None
       end
   | NSet _ els =>
       match find_idx (member_is r) els with
@@ -135,23 +146,76 @@ Definition remove_child (i : nat) (n : node) : node :=
 Definition del_in (r : pyval) (n : node) : res node :=
   rbind (del_index r n) (fun oi => match oi with Some i => ROk (remove_child i n) | None => ROk n end).
 
-(* one leaf coordinate of the deletion loop: the branches on type(parent) *)
+(* one place of the deletion loop: the branches on type(parent); the loop has
+   no `else:` (a parent that is no container never gets this far, see
+   [has_root_coord]) *)
 Definition del_step (p : pcoord) (d : node) : res node :=
   match pc_parent p with
-  | None => RErr (YPE NoDocument)          (* the `else:` branch: refusing to delete the document *)
+  | None => ROk d
   | Some o => app_obj o (del_in (pc_ref p)) d
   end.
 
-(* `for delete_nc in reversed(delete_nodes)` with the recursion into Collector
-   results: the order in which leaf coordinates are processed *)
-Fixpoint del_order1 (c : coord) : list pcoord :=
+(* `if not isinstance(parent, (dict, list, CommentedSet, set)): raise NoDocumentYAMLPathException`
+   while the places are being collected, i.e. before anything is deleted *)
+Definition has_root_coord (ps : list pcoord) : bool :=
+  existsb (fun p => match pc_parent p with None => true | Some _ => false end) ps.
+
+(* Processor._leaf_node_coords: the innermost NodeCoords in GATHER order *)
+Fixpoint leaf_coords1 (c : coord) : list pcoord :=
   match c with
   | CNode p _ => [p]
-  | CList cs _ _ => fold_right (fun c acc => acc ++ del_order1 c) [] cs    (* = concat (map del_order1 (rev cs)) *)
-  | CWrap c _ _ => del_order1 c
+  | CList cs _ _ => flat_map leaf_coords1 cs
+  | CWrap c _ _ => leaf_coords1 c
   end.
-Definition del_order (cs : list coord) : list pcoord :=
-  fold_right (fun c acc => acc ++ del_order1 c) [] cs.
+Definition leaf_coords (cs : list coord) : list pcoord := flat_map leaf_coords1 cs.
+
+(* (position, place) of one leaf coordinate in the intact document [d]:
+     position = -1
+     if isinstance(parent, list) and isinstance(parentref, int):
+         if parentref < 0: parentref += len(parent)
+         position = parentref *)
+Definition del_place (d : node) (p : pcoord) : Z * pcoord :=
+  match pc_parent p with
+  | Some o =>
+      match find_obj o d, as_index (pc_ref p) with
+      | Some (NSeq _ els), Some z =>
+          if (z <? 0)%Z
+          then let z' := (z + Z.of_nat (List.length els))%Z in (z', mkpc (Some o) (PInt z'))
+          else (z, p)
+      | _, _ => ((-1)%Z, p)
+      end
+  | None => ((-1)%Z, p)
+  end.
+
+(* `(id(parent), parentref)` as a member of the set seen_places: same parent object, parentref == *)
+Definition del_same_place (a b : pcoord) : bool :=
+  match pc_parent a, pc_parent b with
+  | Some x, Some y => N.eqb x y
+  | None, None => true
+  | _, _ => false
+  end && py_eq (pc_ref a) (pc_ref b).
+
+(* `if place not in seen_places: seen_places.add(place); places.append(...)` *)
+Fixpoint uniq_places (seen : list pcoord) (l : list (Z * pcoord)) : list (Z * pcoord) :=
+  match l with
+  | [] => []
+  | x :: r => if existsb (del_same_place (snd x)) seen then uniq_places seen r
+              else x :: uniq_places (snd x :: seen) r
+  end.
+
+(* `places.sort(key=position, reverse=True)`: Python's sort is stable, also
+   under reverse=True, so it is THE stable arrangement by descending position;
+   written here as an insertion sort *)
+Fixpoint ins_place (x : Z * pcoord) (l : list (Z * pcoord)) : list (Z * pcoord) :=
+  match l with
+  | [] => [x]
+  | y :: r => if (fst x <? fst y)%Z then y :: ins_place x r else x :: y :: r
+  end.
+Definition sort_places (l : list (Z * pcoord)) : list (Z * pcoord) := fold_right ins_place [] l.
+
+(* the places in the order in which the loop deletes them *)
+Definition del_plan (d : node) (cs : list coord) : list pcoord :=
+  map snd (sort_places (rev (uniq_places [] (map (del_place d) (leaf_coords cs))))).
 
 (* final state of the document, and the exception if one was raised: the code
    mutates in place, so what was deleted before the raise stays deleted *)
@@ -167,9 +231,10 @@ Fixpoint run_del (ps : list pcoord) (d : node) : final :=
   end.
 
 (* Processor.delete_nodes / delete_gathered_nodes on already gathered coordinates *)
-Definition delete_nodes (cs : list coord) (d : node) : final := run_del (del_order cs) d.
+Definition delete_nodes (cs : list coord) (d : node) : final :=
+  if has_root_coord (leaf_coords cs) then Failed d (YPE NoDocument) else run_del (del_plan d cs) d.
 
-(* ---- the YAML-merge-key test of the dict branch (processor.py 777-799) ----
+(* ---- the YAML-merge-key test of the dict branch (processor.py 832-857) ----
    Before `del parent[parentref]` the dict branch scans the WHOLE document for
    anchors (Anchors.scan_for_anchors(ancestry[0][0])) and, when parentref is
    the anchor name of a MAPPING (is_ymk_anchor) and the parent itself has
@@ -219,7 +284,7 @@ Definition is_ymk_anchor (r : pyval) (d : node) : bool :=
 
 Definition del_step_mg (mg : list N) (p : pcoord) (d : node) : res node :=
   match pc_parent p with
-  | None => RErr (YPE NoDocument)
+  | None => ROk d
   | Some o =>
       if existsb (N.eqb o) mg && is_ymk_anchor (pc_ref p) d
       then RErr (PyCrash NotImplemented)          (* the merge-key removal branch: outside the model *)
@@ -237,12 +302,13 @@ Fixpoint run_del_mg (mg : list N) (ps : list pcoord) (d : node) : final :=
 
 (* Processor.delete_nodes on a document some of whose mappings carry merge keys;
    [delete_nodes] above is the case mg = [] (C04merge.delete_nodes_mg_nil) *)
-Definition delete_nodes_mg (mg : list N) (cs : list coord) (d : node) : final := run_del_mg mg (del_order cs) d.
+Definition delete_nodes_mg (mg : list N) (cs : list coord) (d : node) : final :=
+  if has_root_coord (leaf_coords cs) then Failed d (YPE NoDocument) else run_del_mg mg (del_plan d cs) d.
 
 (* ================= part 2: set_value / _apply_change / _update_node =======
-   processor.py 169-343 and 2630-2760 after the fix: commits 2481ae4 (sets),
+   processor.py 169-343 and 2700-2860 after the fix: commits 2481ae4 (sets),
    aaea88e (aliases in sequences), f917898 (addressed position + true aliases
-   only); yamlpath/common/nodes.py Nodes.make_new_node / wrap_type 42-253,
+   only), 7612ed9 (a key alias is not renamed onto an existing key); yamlpath/common/nodes.py Nodes.make_new_node / wrap_type 42-253,
    405-441 with the value formats as an enum (DATE / TIMESTAMP not modelled). *)
 
 Inductive vformat := FBare | FBoolean | FDefault | FDquote | FFloat | FFolded | FInt | FLiteral | FSquote.
@@ -430,13 +496,19 @@ Fixpoint recurse (data : node) : node :=
   end.
 End Recurse.
 
-(* first container object with identity o *)
-Fixpoint find_obj (o : N) (d : node) : option node :=
-  if is_obj o d then Some d else
-  match d with
-  | NMap _ kvs => fold_right (fun kv acc => match find_obj o (snd kv) with Some x => Some x | None => acc end) None kvs
-  | NSeq _ els => fold_right (fun x acc => match find_obj o x with Some r => Some r | None => acc end) None els
-  | _ => None
+(* renames_onto_existing_key(data) (fix 7612ed9): some mapping holds a key that
+   IS the reference node and would be renamed (`key is change_node and
+   hasattr(key, "anchor")`) beside another key `== new_node`; the walk is
+   recurse()'s (no descent into a value that is the reference node) *)
+Fixpoint key_conflict (roid : N) (repl : node) (data : node) : bool :=
+  match data with
+  | NLeaf _ _ => false
+  | NMap _ kvs =>
+      existsb (fun kv => is_ref roid (fst kv) && hattr (fst kv) &&
+                         existsb (fun kv' => negb (is_ref roid (fst kv')) && key_eqb (fst kv') repl) kvs) kvs
+      || existsb (fun kv => negb (is_ref roid (snd kv)) && key_conflict roid repl (snd kv)) kvs
+  | NSeq _ els => existsb (key_conflict roid repl) els
+  | NSet _ _ => false
   end.
 
 (* `if isinstance(parent, list) and isinstance(parentref, int) and parentref < 0: parentref += len(parent)` *)
@@ -484,7 +556,10 @@ Definition update_node (p : pcoord) (value : pyval) (fmt : vformat) (vo : N) (st
           rbind (make_new_node lit fl (option_map node_info chg) value fmt next vo) (fun new =>
           match chg with
           | None => ROk (d, N.succ next)               (* reference_node is None: nothing in a loaded document is replaced *)
-          | Some c => ROk (recurse o r (node_oid c) new d, N.succ next)
+          | Some c =>
+              if key_conflict (node_oid c) new d
+              then RErr (YPE DuplicateKey)             (* refused before anything is changed (fix 7612ed9) *)
+              else ROk (recurse o r (node_oid c) new d, N.succ next)
           end))
       end
   end.
